@@ -31,9 +31,9 @@ that fills two buffers per iteration (`h[i]`/`num_neighbors[i]`, `neighbors[i]`/
 exactly like `Qv.Model.Kernel`, whose control flow they repeat function by function (the driver reports, for
 every call, whether the checked result equals the unchecked one).
 
-`cAnnealPuso`/`annealPuso`/`mkIndexSubgraphs` take a flag `guard`: `false` is `anneal_puso.c` as it is
-(`index[0] = 0;` unconditionally — defect D5 when `num_terms == 0`), `true` is the code with the proposed repair
-`if(num_terms) index[0] = 0;`.  Core Lean only.
+`cAnnealPuso`/`annealPuso`/`mkIndexSubgraphs` take a flag `guard`: `true` is `anneal_puso.c` as it is now
+(`if(num_terms) index[0] = 0;`, /repo 958732b); `false` is the code before that repair (`index[0] = 0;`
+unconditionally — defect D5 when `num_terms == 0`), kept as documentation of the defect.  Core Lean only.
 -/
 namespace Qv.KMem
 open Qv.Kernel (Src OfInt ofInt)
@@ -369,8 +369,8 @@ def nextIndex (p : PusoB α) (index : Buf Int) (term : Nat) : M (Buf Int) :=
 
 /-- `index = malloc(num_terms * sizeof(long)); index[0] = 0; for(term..) { if(term) index[term] =
 index[term-1] + num_couplings[term-1]; for(i..) addToSubgraph }`.
-`guard = false` is the code as it is (`index[0] = 0;` unconditionally: defect D5 when `num_terms == 0`);
-`guard = true` is the code with the proposed one-line repair `if(num_terms) index[0] = 0;`. -/
+`guard = true` is the code as it is now (`if(num_terms) index[0] = 0;`, /repo 958732b);
+`guard = false` is the code before the repair (`index[0] = 0;` unconditionally: defect D5 when `num_terms == 0`). -/
 def mkIndexSubgraphs (guard : Bool) (p : PusoB α) (numTerms : Nat) (sg : Buf (Buf Int)) :
     M (Buf Int × Buf (Buf Int)) := do
   let index ← malloc (numTerms : Int) 8
@@ -493,7 +493,7 @@ def cAnnealQuso (src : Src ρ α) (h : List α) (nn nb : List Int) (J Ts : List 
   pure out
 
 /-- `c_anneal_puso(len_state, num_couplings, terms, couplings, Ts, num_anneals, in_order, initial_state, seed)`
-(`guard`: see `mkIndexSubgraphs`; `false` = the code as it is) -/
+(`guard`: see `mkIndexSubgraphs`; `true` = the code as it is now) -/
 def cAnnealPuso (guard : Bool) (src : Src ρ α) (lenState : Int) (nc terms : List Int) (cs Ts : List α) (numAnneals : Int)
     (inOrder : Bool) (init : List Int) (rng : ρ) : M (List (List Int × α)) := do
   let lenState ← toInt lenState          -- the `i` format of PyArg_ParseTuple
